@@ -52,7 +52,7 @@ int main(int argc, char** argv) {
     Rng r(seed);
     for (int k = 0; k < nsys; ++k) {
         {
-            RandSystem rs; int nb = r.I(1, maxb); int shape = r.I(0, 2);
+            RandSystem rs; rs.ntypes = NMOBTYPES_ALL; int nb = r.I(1, maxb); int shape = r.I(0, 2);
             try { rs.build(r, nb, shape); } catch (const std::exception& e) { std::printf("SKIP %s\n", e.what()); continue; }
             emit(rs, r);
         }
